@@ -9,6 +9,7 @@ package main
 // length reasoning that bit-blasting handles badly.
 
 import (
+	"os"
 	"fmt"
 	"math/big"
 	"sort"
@@ -180,6 +181,14 @@ func (p *liaPrinter) tr1(t *Term) string {
 		op := map[string]string{"bvadd": "+", "bvsub": "-", "bvmul": "*"}[t.Op]
 		if t.Op == "bvmul" && t.Args[0].Op != "bvlit" && t.Args[1].Op != "bvlit" {
 			return p.uf(t.Op, t, a)
+		}
+		if os.Getenv("GOVC_LIA_ITE") != "" && len(a) == 2 && t.Op != "bvmul" {
+			// both operands are in [0, 2^w): one conditional correction replaces the mod
+			s := p.name(t, "Int", fmt.Sprintf("(%s %s %s)", op, a[0], a[1]))
+			if t.Op == "bvadd" {
+				return fmt.Sprintf("(ite (>= %s %s) (- %s %s) %s)", s, pow2(w), s, pow2(w), s)
+			}
+			return fmt.Sprintf("(ite (< %s 0) (+ %s %s) %s)", s, s, pow2(w), s)
 		}
 		return p.name(t, "Int", fmt.Sprintf("(mod (%s %s) %s)", op, strings.Join(a, " "), pow2(w)))
 	case "bvneg":
